@@ -335,7 +335,7 @@ func (c *VirtualTable) Delete(value sqlite.Value) error {
 func (c *VirtualTable) Begin() error {
 	fixedHere := false
 	if c.module.sc.writeTime.IsZero() {
-		c.module.sc.writeTime = time.Now()
+		c.module.sc.writeTime = verifNow(c.common.S3Options.Endpoint)
 		c.module.sc.txFixedWriteTime = true
 		c.module.sc.ResetContext()
 		fixedHere = true
